@@ -20,11 +20,11 @@ type MutSite struct {
 	Call   *ast.CallExpr
 	Callee string
 	Facts  Facts
+	P      *Prog
 }
 
-// DryGuarded reports whether the site is on the false edge of some dry flag.
-func (s *MutSite) DryGuarded() (bool, string) {
-	for k := range s.Facts {
+func dryFact(st Facts) (bool, string) {
+	for k := range st {
 		if strings.HasPrefix(k, "false:field:") {
 			f := strings.TrimPrefix(k, "false:field:")
 			if strings.HasSuffix(f, ".dry") || strings.HasSuffix(f, ".Dry") {
@@ -33,6 +33,58 @@ func (s *MutSite) DryGuarded() (bool, string) {
 		}
 	}
 	return false, ""
+}
+
+// DryGuarded reports whether the site is on the false edge of some dry flag — in its own function, or at every call site of
+// its function (a helper that only writes, extracted from under the guard; followed through two levels of callers).
+func (s *MutSite) DryGuarded() (bool, string) {
+	if ok, f := dryFact(s.Facts); ok {
+		return true, f
+	}
+	if s.P != nil {
+		if ok, f := callersDryGuarded(s.P, s.FB.Root(), 2); ok {
+			return true, f + " (at every call site of " + fnDisplay(s.FB.Root()) + ")"
+		}
+	}
+	return false, ""
+}
+
+func callersDryGuarded(p *Prog, fb *FuncBody, depth int) (bool, string) {
+	if fb == nil || fb.Obj == nil || fb.Obj.Exported() {
+		return false, "" // an exported function can be called from anywhere
+	}
+	n, by := 0, ""
+	for _, cb := range p.Bodies() {
+		if cb.Pkg != fb.Pkg {
+			continue
+		}
+		info := cb.Info()
+		var sites []*ast.CallExpr
+		for _, call := range callsIn(cb, false) {
+			if fn, ok := callee(info, call).(*types.Func); ok && (fn == fb.Obj || fn.Origin() == fb.Obj) {
+				sites = append(sites, call)
+			}
+		}
+		if len(sites) == 0 {
+			continue
+		}
+		// a reference that is not a call (method value handed around) cannot be judged
+		f := NewFlow(p, cb, func(call *ast.CallExpr, obj types.Object) string { return "" })
+		f.NoInline = true
+		f.Run()
+		for _, call := range sites {
+			n++
+			ok, g := dryFact(f.At[call])
+			if !ok && depth > 0 {
+				ok, g = callersDryGuarded(p, cb.Root(), depth-1)
+			}
+			if !ok {
+				return false, ""
+			}
+			by = g
+		}
+	}
+	return n > 0, by
 }
 
 func isFSMutator(obj types.Object) (string, bool) {
@@ -81,7 +133,7 @@ func mutSites(p *Prog, fb *FuncBody) []*MutSite {
 					if name == "os.OpenFile" && !openForWrite(info, call) {
 						return true
 					}
-					out = append(out, &MutSite{FB: b, Call: call, Callee: name, Facts: f.At[call]})
+					out = append(out, &MutSite{FB: b, Call: call, Callee: name, Facts: f.At[call], P: p})
 				}
 			}
 			return true
